@@ -54,7 +54,7 @@ type c16Locker struct{}
 func (c16Locker) Lock()   {}
 func (c16Locker) Unlock() {}
 
-func (c *c16Chain) AcquireInsert(reason string) sync.Locker { return c16Locker{} }
+func (c *c16Chain) AcquireInsert(reason string) sync.Locker  { return c16Locker{} }
 func (c *c16Chain) GetFrontierMomentumStore() store.Momentum { return &c16Store{c: c} }
 func (c *c16Chain) GetPatch(address types.Address, identifier types.HashHeight) db.Patch {
 	if c.pooled {
@@ -122,6 +122,12 @@ func verifModelApplyMomentum(s *vm.Supervisor, detailed *nom.DetailedMomentum) (
 	c.events = append(c.events, c16Event{kind: "momentum", height: detailed.Momentum.Height, hash: detailed.Momentum.Hash})
 	i := c.verCalls
 	c.verCalls++
+	// contract of full verification (C05): a momentum that does not directly extend the frontier is rejected;
+	// everything else about the verdict is arbitrary
+	m := detailed.Momentum
+	if m.Height != c.F+1 || m.PreviousHash != c.localHash(c.F) {
+		c.failAt = i
+	}
 	if i == c.failAt {
 		return nil, constants.ErrVmRunPanic
 	}
@@ -159,12 +165,8 @@ func VerifC16InsertChain() {
 		}
 		batch[i] = d
 	}
-	// delivered batches are hash-linked sequences (the downloader/fetcher only hand over chains whose elements link:
-	// fetcher.insert imports one block; downloader.process slices the ordered queue) - stated precondition
-	for i := 1; i < n; i++ {
-		verifAssume(batch[i].Momentum.Height == batch[i-1].Momentum.Height+1 && batch[i].Momentum.PreviousHash == batch[i-1].Momentum.Hash,
-			"delivered batch is a hash-linked, height-consecutive sequence")
-	}
+	// batches are arbitrary: elements need not link to each other (a momentum that does not extend the frontier is
+	// rejected by verification when its turn comes - see verifModelApplyMomentum)
 	orig := append([]*nom.DetailedMomentum{}, batch...)
 	cb := chainBridge{chain: c, supervisor: &vm.Supervisor{}}
 
